@@ -528,6 +528,29 @@ class Interp:
         if t == "fn" and c[1] == "isfinite":
             if self._finite(c[2][0]):
                 return True
+        if t == "red" and c[1] in ("all", "any") and self.cfg.flags.get("strict_sub") and isinstance(c[3], tuple) \
+                and len(c[3]) == 2 and c[3][0] == "rows" and c[3][1] not in self.cfg.finite_inputs:
+            # the configuration says: some rows of this diagram have an infinite death (they are what a filter drops).
+            # `all(isfinite(death))` is therefore false, `any(~isfinite(death))` true — a filter applied only when needed is
+            # applied in this configuration
+            body = c[4]
+            neg = False
+            while body[0] == "not":
+                body, neg = body[1], not neg
+            fin = None
+            if body[0] == "fn" and body[1] == "isfinite":
+                fin = body[2][0]
+            elif body[0] == "cmp" and body[1] == "!=" and body[3] == sym.INF:
+                fin = body[2]
+            elif body[0] == "cmp" and body[1] == "==" and body[3] == sym.INF:
+                fin, neg = body[2], not neg
+            elif body[0] == "fn" and body[1] == "isinf":
+                fin, neg = body[2][0], not neg
+            if fin is not None and fin[0] == "in" and fin[1] == c[3][1] and fin[2][1] == 1:
+                if c[1] == "all" and not neg:
+                    return False
+                if c[1] == "any" and neg:
+                    return True
         if t == "red" and c[1] in ("all", "any"):
             r = self.decide(c[4])
             if r is not None:
@@ -934,8 +957,9 @@ class Interp:
             return a
         if isinstance(a, Sc) and isinstance(b, Sc):
             return Sc(sym.ITE(c, a.e, b.e))
-        if isinstance(a, Arr) and isinstance(b, Arr) and a.ndim == b.ndim and \
+        if isinstance(a, Arr) and isinstance(b, Arr) and a.ndim == b.ndim and a.kind == b.kind and \
                 all(x[0].same_size(y[0]) for x, y in zip(a.axes, b.axes)):
+            # (a python list and an ndarray with the same entries are different values: isinstance tells them apart)
             eb = b.elem
             for (sa, ia), (sb, ib) in zip(a.axes, b.axes):
                 if ia != ib:
@@ -2452,6 +2476,8 @@ class Interp:
             holder = self.global_value(mod, node)
             if isinstance(holder, ObjV) and holder.cls is None and holder.tag:
                 return self.attribute(holder, name, node, {})
+            if isinstance(holder, (Arr, Seq, Blocks, DiagMat)):
+                return self.attribute(holder, name, node, {})   # `_R.T`, `_TABLE.shape` of a module-level array
         if tgt.split(".")[0] in ("numpy", "scipy", "sklearn", "matplotlib", "builtins", "warnings", "itertools",
                                  "operator", "copy", "bisect", "hopcroftkarp", "joblib", "math", "typing", "numbers",
                                  "functools", "collections", "dataclasses", "logging", "time"):
@@ -2786,6 +2812,13 @@ class Interp:
             a = a.val
         if isinstance(b, Opt):
             b = b.val
+        # the dtype of an array of numbers is not `object` (object arrays — arrays OF diagrams — are not values of this evaluator)
+        if isinstance(op, (ast.Eq, ast.NotEq)):
+            for x_, y_ in ((a, b), (b, a)):
+                if isinstance(x_, ObjV) and x_.tag == "dtype" and (
+                        (isinstance(y_, FuncV) and y_.target in ("builtins.object", "numpy.object_"))
+                        or (isinstance(y_, StrV) and y_.s in ("object", "O"))):
+                    return Sc(sym.Bool(isinstance(op, ast.NotEq)))
         # rich comparison methods of the package's own classes: a == b is a.__eq__(b), a != b its negation unless __ne__ exists,
         # x in obj is obj.__contains__(x), x in [objects] is `is` or == against every item
         if isinstance(op, (ast.Eq, ast.NotEq)) and isinstance(a, ObjV) and a.cls and not isinstance(b, NoneV):
@@ -2823,6 +2856,15 @@ class Interp:
                     t_ = sym.Bool(d_)
                 return Sc(t_ if isinstance(op, ast.In) else sym.Not(t_))
         if isinstance(op, (ast.Is, ast.IsNot)):
+            # a value that is "one of these, possibly None" (an item of a list whose entries were merged into one generic
+            # element): whether THIS item is None is not known — and which entries are None has been lost with the merge
+            for x_, y_ in ((a, b), (b, a)):
+                if isinstance(y_, NoneV) and not isinstance(x_, NoneV):
+                    ex_ = x_.e if isinstance(x_, Sc) else getattr(x_, "elem", None)
+                    if ex_ is not None and any(t_[0] == "opq" and t_[1] == "none" for t_ in sym.walk(ex_)):
+                        self.lose("an item of a list that holds None in some places and values in others is tested against None: "
+                                  "which places hold None was not kept", node)
+                        return Sc(sym.Opq("config", (), fresh("is")))
             same = (isinstance(a, NoneV) and isinstance(b, NoneV))
             known = isinstance(a, (NoneV, Sc, Arr, Seq, StrV, DictV, FuncV, ObjV, Blocks, Bag)) and \
                 isinstance(b, (NoneV, Sc, Arr, Seq, StrV, DictV, FuncV, ObjV, Blocks, Bag))
